@@ -782,8 +782,10 @@ func (w *Reconciler) handleTTLAfterFinished(
 		return nil
 	}
 
-	// Not yet expired.
-	if rj.Status.Condition.Finished.FinishTimestamp.Add(ttl).After(ktime.Now().Time) {
+	// Not yet expired. Sync again once the effective TTL (which may come from the
+	// controller's default rather than from the Job) has passed.
+	if expiry := rj.Status.Condition.Finished.FinishTimestamp.Add(ttl); expiry.After(ktime.Now().Time) {
+		w.enqueueAfter(rj, "ttl_seconds_after_finished", time.Until(expiry))
 		return nil
 	}
 
